@@ -116,6 +116,7 @@ class Peer:
     def __init__(self, tc):
         self.tc = tc
         self.ls = socket.socket()
+        self.ls.setsockopt(socket.SOL_SOCKET, socket.SO_REUSEADDR, 1)
         self.ls.bind(("127.0.0.1", 0))
         self.ls.listen(4)
         self.port = self.ls.getsockname()[1]
